@@ -82,17 +82,27 @@ def write(path, obj=None, raw=None):
         f.write(raw if raw is not None else json.dumps(obj).encode("utf-8"))
 
 
-def gen_pair(rng):
+ROOT_ROWS = ["accept", "version", "old_rule", "new_rule", "type", "new_malformed", "no_root_delegation", "trusted_malformed", "accept"]
+DELEG_KINDS = ["ok", "below", "wrongkey", "type_mismatch", "unknown_role", "junk", "edited", "ok"]
+CROSS = ["root_under_nonroot_with_root_role", "keymgr_under_keymgr", "root_raw_signed_under_root"]
+MALFORMED = ["untrusted_not_json", "trusted_not_json", "untrusted_list", "untrusted_scalar", "no_signed", "no_type", "type_not_str",
+             "missing_untrusted", "missing_trusted", "empty_file", "swapped", "trusted_is_payload"]
+CLASSES = [("root", x) for x in ROOT_ROWS] + [("deleg", x) for x in DELEG_KINDS] + [("cross", x) for x in CROSS] + [("malformed", x) for x in MALFORMED]
+
+
+def gen_pair(rng, cls=None):
     """returns (label, trusted_bytes|None, untrusted_bytes|None) ; None = file missing"""
-    r = rng.random()
+    if cls is None:
+        cls = rng.choice(CLASSES)
+    r = {"root": 0.0, "deleg": 0.5, "cross": 0.82, "malformed": 0.9}[cls[0]]
     U = [gkeys.key(i) for i in range(8)]
     if r < 0.45:
-        row = rng.choice(["accept", "accept", "accept", "version", "old_rule", "new_rule", "type", "new_malformed", "no_root_delegation", "trusted_malformed"])
+        row = cls[1]
         c = rootchain.gen_pair(rng, row)
         return "root:" + row, json.dumps(c["trusted"]).encode(), json.dumps(c["new"]).encode()
     if r < 0.8:
         # delegation (raw signatures): key_mgr / other type under a root
-        kind = rng.choice(["ok", "ok", "ok", "below", "wrongkey", "type_mismatch", "unknown_role", "junk", "edited"])
+        kind = cls[1]
         km_keys = rng.sample(U, rng.randint(1, 3))
         t = rng.randint(1, len(km_keys))
         utype = rng.choice(["key_mgr", "key_mgr", "pkg_mgr", "other"])
@@ -120,8 +130,21 @@ def gen_pair(rng):
             if isinstance(env["signed"], dict):
                 env["signed"]["edited"] = 1
         return "deleg:%s:%s" % (utype, kind), json.dumps(trusted).encode(), json.dumps(env).encode()
-    k = rng.choice(["untrusted_not_json", "trusted_not_json", "untrusted_list", "untrusted_scalar", "no_signed", "no_type", "type_not_str",
-                    "missing_untrusted", "missing_trusted", "empty_file", "swapped", "trusted_is_payload"])
+    if r < 0.86:
+        # cross-type pairs: the dispatch is decided by the UNTRUSTED file's declared type alone
+        which = cls[1]
+        ks = rng.sample(U, 2)
+        if which == "root_under_nonroot_with_root_role":
+            trusted = gmd.envelope(gmd.delegating("key_mgr", {"root": gmd.delegation(ks, 1), "pkg_mgr": gmd.delegation([U[6]], 1)}))
+            env = gmd.sign_env(gmd.envelope(gmd.root_md(2, ks, 1, [U[6]], 1)), ks, False, rng)
+        elif which == "keymgr_under_keymgr":
+            trusted = gmd.envelope(gmd.delegating("key_mgr", {"key_mgr": gmd.delegation(ks, 1)}))
+            env = gmd.sign_env(gmd.envelope(gmd.delegating("key_mgr", {})), ks[:1], False, rng)
+        else:
+            trusted = rootchain.signed_root(1, ks, 1, ks, rng)
+            env = gmd.sign_env(gmd.envelope(gmd.root_md(2, ks, 1, [U[6]], 1)), ks, False, rng)  # raw, not OpenPGP: root chaining must reject
+        return "cross:" + which, json.dumps(trusted).encode(), json.dumps(env).encode()
+    k = cls[1]
     c = rootchain.gen_pair(rng, "accept")
     tb, ub = json.dumps(c["trusted"]).encode(), json.dumps(c["new"]).encode()
     if k == "untrusted_not_json":
@@ -176,7 +199,8 @@ def run_verify(spec, rec, lib):
     d = spec["scratch"]
     eps = entry_points(lib.repo, d)
     for n in range(spec["count"]):
-        label, tb, ub = gen_pair(rng)
+        # classes in rotation across shards, so that even the quick tier meets every class
+        label, tb, ub = gen_pair(rng, CLASSES[(spec["_id"] * spec["count"] + n) % len(CLASSES)])
         tp, up = os.path.join(d, "t%d.json" % n), os.path.join(d, "u%d.json" % n)
         if tb is not None:
             write(tp, raw=tb)
